@@ -88,7 +88,59 @@ fn prog_pairs(kinds: &[&str], prefix: &str, self_only: bool, quick: Option<usize
     v
 }
 
+/// the same instances again with the saturated-start prelude (pool pinned, stale schedule entry, released by the environment)
+fn with_pre(v: &mut Vec<Item>, picks: &[(&'static str, &str)], quick: Option<usize>, thorough: usize) {
+    for (sc, cfg) in picks {
+        v.push(it(sc, &format!("{},sat=1", cfg), quick, thorough));
+        // ... and with the stale-waker environment (every object first hosts a future operation whose wakers fire again later)
+        v.push(it(sc, &format!("{},sw=1", cfg), quick, thorough));
+    }
+}
+
 pub fn plan(prop: &str) -> Vec<Item> {
+    let mut v = plan_base(prop);
+    match prop {
+        "C01" => with_pre(&mut v, &[("excl_susp", "pool=1,kind=0"), ("excl_drop", "pool=1,k=1,other=0"), ("sync_states", "pool=1,st=5,n=2"), ("fs_cancel", "pool=1,mode=3")], Some(1), 2),
+        "C02" => with_pre(&mut v, &[("order_ctx", "pool=1,a=0,b=1,pre=1"), ("order_ctx", "pool=1,a=3,b=1,pre=2"), ("order_ctx", "pool=1,a=4,b=0,pre=1"), ("sync_states", "pool=1,st=1,n=1")], Some(1), 2),
+        "C03" => with_pre(&mut v, &[("f2_dormant_race", "pool=1"), ("f2_dormant_race", "pool=2"), ("try_paths", "pool=1,path=0"), ("try_paths", "pool=1,path=4"), ("pool_census", "pool=1,n=2,phases=0"), ("wake_ctx", "pool=1,kind=0,ctx=0,wake=0"), ("sync_states", "pool=1,st=2,n=1")], Some(1), 2),
+        "C04" => with_pre(&mut v, &[("sync_states", "pool=1,st=0,n=2"), ("sync_states", "pool=1,st=2,n=2"), ("sync_states", "pool=1,st=3,n=1"), ("sync_states", "pool=1,st=5,n=1"), ("sync_states", "pool=1,st=7,n=1"), ("sync_states", "pool=1,st=8,n=1"), ("sync_states", "pool=2,st=5,n=1")], Some(1), 2),
+        "C05" => with_pre(&mut v, &[("drop_obj", "pool=1,state=0,dropper=0"), ("drop_obj", "pool=1,state=2,dropper=0"), ("drop_obj", "pool=1,state=3,dropper=1"), ("drop_obj", "pool=1,state=4,dropper=0"), ("drop_obj", "pool=1,state=3,dropper=2")], Some(1), 2),
+        "C06" => with_pre(&mut v, &[("wake_ctx", "pool=1,kind=0,ctx=0,wake=0"), ("wake_ctx", "pool=1,kind=1,ctx=0,wake=2"), ("wake_ctx", "pool=1,kind=0,ctx=2,wake=0"), ("wake_ctx", "pool=1,kind=2,ctx=2,wake=1"), ("wake_ctx", "pool=1,kind=0,ctx=1,wake=0"), ("fd_result", "pool=1,mode=5")], Some(2), 3),
+        "C07" => with_pre(&mut v, &[("fd_result", "pool=1,mode=0"), ("fd_result", "pool=1,mode=1"), ("fd_result", "pool=1,mode=2"), ("fd_result", "pool=1,mode=3"), ("fd_result", "pool=1,mode=5"), ("fd_result", "pool=1,mode=6"), ("fd_two", "pool=1,order=0")], Some(1), 2),
+        "C08" => with_pre(&mut v, &[("fs_cancel", "pool=1,mode=0"), ("fs_cancel", "pool=1,mode=1"), ("fs_cancel", "pool=1,mode=2"), ("fs_cancel", "pool=1,mode=3"), ("fs_nested", "pool=1,shape=0"), ("fs_nested", "pool=1,shape=2")], Some(1), 2),
+        "C09" => with_pre(&mut v, &[("try_paths", "pool=1,path=0"), ("try_paths", "pool=1,path=1"), ("try_paths", "pool=1,path=2"), ("try_paths", "pool=1,path=4"), ("try_paths", "pool=1,path=5")], Some(1), 2),
+        "C10" => with_pre(&mut v, &[("indep", "pool=2,k=1,mode=0,syncer=0"), ("indep", "pool=2,k=1,mode=1,syncer=0"), ("indep_race", "pool=2,n=2")], Some(0), 1),
+        "C11" => with_pre(&mut v, &[("pipe_in_items", "pool=1,n=2,pat=1,conc=1"), ("pipe_in_items", "pool=1,n=2,pat=2,conc=2"), ("pipe_in_items", "pool=1,n=1,pat=1,conc=2,fin=1"), ("pipe_in_items", "pool=1,n=2,pat=0,conc=0")], Some(1), 2),
+        "C12" => with_pre(&mut v, &[("pipe_out", "pool=1,n=2,d=1,pat=1"), ("pipe_out", "pool=1,n=2,d=2,pat=2"), ("pipe_out", "pool=1,n=1,d=1,pat=0"), ("pipe_out", "pool=1,n=3,d=1,pat=1")], Some(1), 2),
+        "C13" => with_pre(&mut v, &[("suspend", "pool=1,resume=0,sync=1"), ("suspend", "pool=1,resume=1,sync=0"), ("suspend", "pool=1,resume=0,sync=0,stale=1")], Some(1), 2),
+        "C15" => with_pre(&mut v, &[("panic_contain", "pool=1,ctx=0"), ("panic_contain", "pool=1,ctx=3"), ("panic_contain", "pool=1,ctx=2"), ("panic_contain", "pool=1,ctx=3,selfwake=1")], Some(2), 3),
+        "C16" => with_pre(&mut v, &[("pipe_drop_output", "pool=1,mode=0"), ("pipe_drop_output", "pool=1,mode=1"), ("pipe_drop_output", "pool=1,mode=2"), ("pipe_drop_output", "pool=1,mode=3")], Some(1), 2),
+        "C17" => with_pre(&mut v, &[("pool_census", "pool=1,n=2,phases=0"), ("pool_census", "pool=1,n=2,phases=2"), ("pool_census", "pool=1,n=2,phases=3")], Some(1), 2),
+        "C14" => with_pre(&mut v, &[("drop_obj", "pool=1,state=3,dropper=0"), ("drop_obj", "pool=1,state=4,dropper=0"), ("fs_cancel", "pool=1,mode=3,raw=0"), ("sync_states", "pool=1,st=5,n=1,raw=0"), ("fd_result", "pool=1,mode=3,raw=0")], Some(1), 2),
+        _ => {}
+    }
+    // generated programs with a saturated start
+    match prop {
+        "C01" | "C02" | "C03" | "C04" | "C06" | "C07" | "C08" | "C09" => {
+            let kinds: &[&str] = match prop {
+                "C03" => &["D", "Dn", "Dx", "Sn", "FDd", "AF", "FDx", "FDk"],
+                "C04" => &["S", "Sn", "Dx", "FDs"],
+                "C06" => &["FDa", "FDd", "FSa", "AF", "FDx", "FSx", "FDk"],
+                "C07" => &["FDa", "FDd", "FDs", "AF", "FDx", "FDk"],
+                "C08" => &["FSa", "FSx"],
+                "C09" => &["T"],
+                _ => &[],
+            };
+            v.extend(prog_pairs(kinds, "pool=1,sat=1", false, Some(0), 1, 1));
+            v.extend(prog_pairs(kinds, "pool=1,sw=1", false, Some(0), 1, 1));
+            v.extend(prog_pairs(kinds, "pool=0,sw=1", true, Some(0), 1, 1));
+        }
+        _ => {}
+    }
+    v
+}
+
+fn plan_base(prop: &str) -> Vec<Item> {
     let mut v = vec![];
     match prop {
         "C01" => {
@@ -172,6 +224,11 @@ pub fn plan(prop: &str) -> Vec<Item> {
                     }
                 }
             }
+            for pool in [0, 1] {
+                for n in [1, 2] {
+                    v.push(it("sync_states", &format!("pool={},st=9,n={}", pool, n), Some(2), 3));
+                }
+            }
             v.push(it("sync_states", "pool=1,st=7,n=1", Some(2), 3));
             v.push(it("sync_states", "pool=2,st=7,n=2", Some(1), 2));
             v.push(it("sync_states", "pool=2,st=8,n=1", Some(2), 3));
@@ -225,6 +282,8 @@ pub fn plan(prop: &str) -> Vec<Item> {
             }
             v.push(it("sync_states", "pool=1,st=5,n=1", Some(2), 3));
             v.push(it("sync_states", "pool=0,st=5,n=2", Some(2), 4));
+            v.push(it("try_paths", "pool=1,path=6", Some(2), 3));
+            v.push(it("sync_states", "pool=1,st=9,n=1", Some(2), 3));
             for kind in [0, 1] {
                 v.push(it("wake_stale_entry", &format!("pool=1,kind={}", kind), Some(2), 3));
             }
@@ -303,6 +362,9 @@ pub fn plan(prop: &str) -> Vec<Item> {
                     v.push(it("try_paths", &format!("pool={},path={}", pool, path), if pool == 2 { Some(1) } else { Some(if heavy { 1 } else { 2 }) }, if pool == 2 || heavy { 2 } else { 3 }));
                 }
             }
+            for pool in [0, 1, 2] {
+                v.push(it("try_paths", &format!("pool={},path=6", pool), Some(if pool == 2 { 1 } else { 2 }), 3));
+            }
             v.push(it("f1_try_sync_idle_nonempty", "pool=1", Some(3), 4));
             v.push(it("f1_try_sync_idle_nonempty", "pool=0", Some(3), 4));
             v.push(it("excl_susp", "pool=1,kind=0", Some(2), 3));
@@ -322,6 +384,7 @@ pub fn plan(prop: &str) -> Vec<Item> {
             }
             v.push(it("indep_stale", "pool=3,how=0", None, 1));
             v.push(it("indep_race", "pool=2,n=2", Some(2), 3));
+            // (the seeded spawn race C10-c needs 2 preemptions here)
             v.push(it("indep_race", "pool=3,n=2", Some(1), 2));
             v.push(it("indep_race", "pool=3,n=3", Some(0), 1));
         }
